@@ -1,4 +1,5 @@
 import Iauthd.Proto.RenderStep
+import Iauthd.Proto.Deliver
 /-
   C09 (model part): installing a configuration keeps the invariant, provided the names and values
   the file gives to services and rules can stand inside a protocol line (no blank, line feed or
@@ -60,23 +61,9 @@ theorem sortSection_ok {l : List CNode} (h : SecOK l) : SecOK (sortSection l) :=
     intro acc hl ha
     exact ih _ (fun x hx => hl x (List.mem_cons_of_mem _ hx)) (insertCNode_ok (hl n (List.mem_cons_self ..)) ha)
 
-theorem mergeSection_ok {live new : List CNode} (hl : SecOK live) (hn : SecOK new) : SecOK (mergeSection live new) := by
+theorem mergeSection_ok {live new : List CNode} (_hl : SecOK live) (hn : SecOK new) : SecOK (mergeSection live new) := by
   unfold mergeSection
-  apply sortSection_ok
-  intro x hx
-  obtain ⟨n, hnn, rfl⟩ := List.mem_map.mp hx
-  have hno := hn n hnn
-  split
-  · rename_i m hm
-    have hmo := hl m (List.mem_of_find?_eq_some hm)
-    refine ⟨hmo.nameW, hmo.nameC, hmo.nameL, ?_⟩
-    intro kv hkv
-    obtain ⟨kv0, hkv0, rfl⟩ := List.mem_map.mp hkv
-    have := hno.kids kv0 hkv0
-    obtain ⟨k, v⟩ := kv0
-    dsimp only
-    split <;> exact this
-  · exact hno
+  exact sortSection_ok hn
 
 /-! ### services -/
 
@@ -253,10 +240,11 @@ theorem applyConfig_ok (s : State) (h : StateOK s) (live new : Config) (hl : Con
   have hc := mergeSection_ok hl.cls hn.cls
   have h0 : StateOK { s with timeout := new.timeout } := ⟨h.reqs, h.svcs, h.rules, h.lim⟩
   refine ⟨?_, ⟨hx, hc⟩⟩
-  have h1 : StateOK (if ({ s with timeout := new.timeout } : State).hasXq && (first || mergeSection live.xq new.xq != live.xq)
-      then servicesChanged { s with timeout := new.timeout } (mergeSection live.xq new.xq) else { s with timeout := new.timeout }) := by
+  have h1 : StateOK (if ({ s with timeout := new.timeout } : State).hasXq
+      then deliverXq { s with timeout := new.timeout } live.xq (mergeSection live.xq new.xq) first
+      else { s with timeout := new.timeout }) := by
     split
-    · exact servicesChanged_ok h0 hx
+    · exact deliverXq_inv (P := StateOK) (Q := NodeOK) (fun s sec hs hq => servicesChanged_ok hs hq) _ _ _ _ h0 hl.xq hx
     · exact h0
   have h2 : ∀ s1 : State, StateOK s1 →
       StateOK (if s1.hasClass && (first || mergeSection live.cls new.cls != live.cls)
